@@ -8,6 +8,27 @@ PY = '/venv/bin/python'
 
 # id -> (engine, category, technique, text, note, design_ref)
 CHECKS = {
+    'C17': ('E-fault', 'fault_enumeration',
+            'exhaustive fault placement: one database fault of every kind at every SQL statement index of every corpus request on the real service (thorough: pairs)',
+            'Corpus of 32 entries covering every write route in a state where it succeeds and, for the multi-step ones, in one where '
+            'it is rejected after its write transaction started, plus start-up synchronisation on an empty, partial and full database; '
+            'for every statement index k and every fault kind (deadlock with the transaction left open, deadlock with the transaction '
+            'rolled back by the DBMS, duplicate key with a racing creator whose row becomes visible after the transaction, connection, '
+            'generic, raw driver error) the request is re-run with the fault at statement k; thorough adds every second fault after a '
+            'successfully retried first one. Oracle: 2xx implies the same rows as the fault-free run with generations moved exactly '
+            'where it moved them, an error is a well-formed JSON error and leaves the pre-state; faults inside the retry-wrapped '
+            'functions must be retried (statement re-execution counted).',
+            'faults injected above the driver; SQLite substrate; sleeping between retries disabled',
+            'DESIGN.md 5.C17'),
+    'C18': ('E-crash', 'fault_enumeration',
+            'exhaustive crash-point enumeration: the process dies before/after every SQL statement and before every commit of every corpus request',
+            'Same corpus as C17; at every crash point the request is abandoned by a BaseException from the statement/commit hook, a copy '
+            'of the database file and its rollback journal is taken at that instant and recovered by SQLite itself; the survivor must '
+            'equal the file left after unwinding and must satisfy INV-ref, INV-forest, the capacity predicate, and equal the pre-state or '
+            'the complete post-state on providers, inventories, associations and allocations (extra project/user/type rows and a consumer '
+            'without allocations are the only tolerated residue).',
+            'SQLite rollback-journal recovery stands in for the DBMS rolling back the transaction in flight',
+            'DESIGN.md 5.C18'),
     'C15': ('E-enum', 'exploration',
             'deviation-bounded exhaustive enumeration (every single mutation; thorough: every pair) of a mutation grammar over a corpus of valid requests on the real service',
             'Corpus of 62 valid requests (one per route x method x body/query format) in three states (empty, populated flat, '
